@@ -50,6 +50,11 @@ impl Rng {
         v.truncate(n);
         v
     }
+    /// random bytes of a random length in [lo, hi]
+    pub fn bytes_in(&mut self, lo: usize, hi: usize) -> Vec<u8> {
+        let n = self.usize(lo, hi);
+        self.bytes(n)
+    }
     pub fn shuffle<T>(&mut self, xs: &mut [T]) {
         for i in (1..xs.len()).rev() {
             let j = self.below(i as u64 + 1) as usize;
